@@ -140,9 +140,12 @@ pub fn run(cx: &mut Ctx) {
         let ty = api::CIPHERS[((i + cx.shard) % 7) as usize];
         let (layout, _, _) = api::cipher_params(ty);
         let fb = levels[((i / 7 + cx.shard) % levels.len() as u64) as usize];
-        let len = match rng.below(10) {
-            0..=3 => *rng.pick(&lens_special),
-            4..=7 => rng.below(601) as usize,
+        let len = match rng.below(40) {
+            0..=15 => *rng.pick(&lens_special),
+            16..=31 => rng.below(601) as usize,
+            // now and then a request of many KiB in one call (whole pages, odd sizes)
+            32 if !cfg!(miri) => 4096 * rng.range(1, 17) as usize + [0usize, 0, 1, 63, 255][rng.below(5) as usize],
+            33 if !cfg!(miri) => rng.below(300_000) as usize,
             _ => rng.below(5001) as usize,
         };
         let off = if rng.below(4) == 0 { 0 } else { rng.below(64) as u128 };
@@ -152,7 +155,9 @@ pub fn run(cx: &mut Ctx) {
             1 => 1,
             2 => 3,
             3 => 4,
-            4 | 5 => ((1u128 << 32) - 5 + rng.below(10) as u128).min(limit_blocks - 1),
+            4 => ((1u128 << 32) - 5 + rng.below(10) as u128).min(limit_blocks - 1),
+            // around a later multiple of 2^32 blocks (the high counter word is already non-zero)
+            5 => (((1u128 << 32) * rng.range(1, 1 << 20) as u128) - 5 + rng.below(10) as u128).min(limit_blocks - 1),
             6 | 7 => limit_blocks - 1 - rng.below(6) as u128,
             8 => rng.below(64) as u128,
             _ => (rng.u64() as u128) % limit_blocks,
